@@ -39,6 +39,10 @@ func (n1 jsonNumber) Equals(node JsonNode, options ...Option) bool {
 func (n jsonNumber) hashCode(options []Option) [8]byte {
 	a := make([]byte, 0, 8)
 	b := bytes.NewBuffer(a)
+	if n == 0 {
+		// Negative zero equals zero so they must share a hash code.
+		n = 0
+	}
 	binary.Write(b, binary.LittleEndian, n)
 	return hash(b.Bytes())
 }
